@@ -5,6 +5,9 @@ V = os.path.dirname(os.path.dirname(os.path.abspath(__file__)))
 ALL = ["C%02d" % i for i in range(1, 20)]
 # property -> (families, level text, level note)
 CLAIMED = {
+ "C03": ("q_mpsc", "Generated-schedule search directly on may_queue's mpsc and spsc block queues (producer threads, one consumer, schedule points at the queue's own atomic operations and slot writes, start offsets around the block boundaries, drop with values inside); oracle = exactly-once ledger with magic check (never an unpushed/uninitialised value), per-producer order, real-time order across producers, empty answers of pop/bulk_pop/peek/len/is_empty legal only if no completely pushed value was outstanding, len() bounds, peek == next pop (FIFO linearizability for one consumer). Thorough tier adds libFuzzer+AddressSanitizer campaigns of the same oracle in-process (use of freed blocks).", "5/C03"),
+ "C04": ("q_spmc", "Generated-schedule search directly on may_queue::spmc (Local/Steal and raw Queue API) with an owner that keeps servicing while 1-3 stealers run, a LIFO size-class allocator in the child so that freed blocks are re-used at the same address (ABA by construction) and a generator component built to reach the ABA window; oracle = every pushed task obtained exactly once (magic check = never an uninitialised slot), owner pops ascending, ids inside a stolen batch ascending with the returned task newest, every claiming operation returns (exact deadlock/livelock detection). Thorough tier adds libFuzzer+ASan campaigns.", "5/C04"),
+ "C19": ("q_list", "Generated-schedule search directly on may_queue::mpsc_list_v1 (1-3 producers handing entry handles to a consumer that pops, pop_ifs, peeks, removes live and already consumed handles); oracle = every entry consumed exactly once by exactly one of pop/pop_if/remove, remove of a consumed entry returns None, pop order = push order per producer and in real time across producers, empty answers legal, is_head false only if the list could have been non-empty and true only if it could have been empty during the push. Thorough tier adds libFuzzer+ASan campaigns (node memory).", "5/C19"),
  "C13": ("panic", "Generated-schedule search over 3-12 coroutines on small pools whose bodies take Mutex / RwLock sections and end in a value or in a panic outside any lock, while holding the Mutex, while holding the write guard, inside a scoped child or inside a select arm, with optional cancels and later coroutines spawned after the first wave; oracle = join() outcome equals the closure's ending (value, exact panic message, Cancel only for cancel targets), later coroutines and recycled stacks work (worker survived), lock released after the panic, poison flag set iff a panic - not a cancel - dropped a guard (never poisoned without a panic inside), exclusion and lost-update checks, scope / poll re-raise the child's payload.", "5/C13"),
  "C15": ("local", "Generated-schedule search over coroutines run in joined waves on a pool of 1-2 stacks (recycling with generated histories: normal end, panic, cancelled while parked, expired park_timeout / Blocker park) plus threads, all using three coroutine_local! keys; oracle = per-actor model (every read returns the actor's own last write or the initial value), owner tag never foreign, value never used after its drop, initialiser count == number of (actor, key) pairs, drops == initialisations at quiescence (no leak, no double drop), the first blocking call of every fresh coroutine returns its model result (no stale Timeout/Canceled), a fresh coroutine is never cancelled.", "5/C15"),
  "C16": ("cqueue", "Generated-schedule search over cqueue scopes (1-4 arms with immediate / channel / sleep / semaphore top halves, 1-3 events, optional panics, feeders at generated times, 1-6 timed or untimed polls, Selector::remove) and the select! macro with nearly simultaneous arms; oracle = per poll the returned arm's bottom-half counter grew by exactly one and no other arm's did, event sequence numbers per arm in order without duplicates, bottom <= top <= bottom+1, Finished only when every arm has ended, Timeout only after d, no arm alive after the scope, arm panic re-raised in the poller, select! returns an arm with top and bottom run once and nothing executing or running later.", "5/C16"),
@@ -51,6 +54,7 @@ def main():
             "add_only": True,
         },
         "engines": [
+            {"name": "qfuzz", "path": "engine/fuzz", "serves_properties": ["C03", "C04", "C19"], "kind_free_text": "cargo-fuzz / libFuzzer targets with AddressSanitizer: the same baton scheduler and queue oracles in-process, bytes decoded into (program, schedule); thorough tier only"},
             {"name": "detsched", "path": "engine", "serves_properties": sorted(CLAIMED), "kind_free_text": "Rust binary `mv`: proptest runners in the parent (16 threads), one fresh child process per generated case; the child runs the real may runtime under a deterministic baton scheduler with virtual time, generated schedules and stall faults"},
         ],
         "checks": checks,
